@@ -185,6 +185,7 @@ class FragmentTask(Task):
     post() receives the frame's variables as out.value (dict)."""
     first = None     # predicate(ast stmt) -> bool
     last = None
+    unordered = False    # True: the fragment spans the two anchors whatever their order
 
     @staticmethod
     def assigns(name):
@@ -229,6 +230,11 @@ class FragmentTask(Task):
                 i1s = [i for i, s in enumerate(b) if i >= i0 and self.last(s)]
                 if i1s:
                     return b[i0:i1s[-1] + 1]
+                if getattr(self, "unordered", False):
+                    # the two anchor statements in the other order (a reordering of the statements is still the fragment)
+                    j = [i for i, s in enumerate(b) if self.last(s)]
+                    if j:
+                        return b[min(j[0], i0):max(j[-1], i0) + 1]
         return None
 
     def call(self, ex, inp):
